@@ -51,6 +51,9 @@ fn standard_involution(n: usize, k: usize) -> Vec<usize> {
 /// D-sets of dimension `dim` (1..=3) with exactly n chambers whose non-adjacent operations commute.
 /// Without loss of generality op 0 is a standard involution of its cycle type.
 pub fn dsets_of_size(dim: usize, n: usize) -> Vec<DS> {
+    if dim >= 4 {
+        return dsets_of_size_any_dim(dim, n);
+    }
     assert!((1..=3).contains(&dim));
     let invs = involutions(n);
     let mut found: BTreeMap<Vec<usize>, DS> = BTreeMap::new();
@@ -114,6 +117,56 @@ pub fn dsets_of_size(dim: usize, n: usize) -> Vec<DS> {
             found.entry(code).or_insert(ds);
         }
     }
+    found.into_values().map(|ds| crate::oracle::iso::canonical_ds(&ds)).collect()
+}
+
+/// The same for any dimension: operations are chosen one index at a time, each commuting with all
+/// operations whose index is smaller by two or more (op 0 standard up to its cycle type).
+pub fn dsets_of_size_any_dim(dim: usize, n: usize) -> Vec<DS> {
+    let invs = involutions(n);
+    let starts: Vec<Vec<usize>> = (0..=(n / 2)).map(|k| standard_involution(n, k)).collect();
+    fn rec<'a>(dim: usize, n: usize, invs: &'a [Vec<usize>], ops: &mut Vec<&'a Vec<usize>>, local: &mut BTreeMap<Vec<usize>, DS>) {
+        let i = ops.len();
+        if i == dim + 1 {
+            let mut ds = DS::new(dim, n);
+            for (k, o) in ops.iter().enumerate() {
+                ds.op[k] = (*o).clone();
+            }
+            for k in 0..dim {
+                for d in 1..=n {
+                    ds.v[k][d] = 1;
+                }
+            }
+            if ds.is_connected() {
+                debug_assert!(ds.commutes());
+                local.entry(canonical_code(&ds, false)).or_insert(ds);
+            }
+            return;
+        }
+        for cand in invs {
+            if (0..i.saturating_sub(1)).all(|j| commute(cand, ops[j])) {
+                ops.push(cand);
+                rec(dim, n, invs, ops, local);
+                ops.pop();
+            }
+        }
+    }
+    let merge = |mut a: BTreeMap<Vec<usize>, DS>, b: BTreeMap<Vec<usize>, DS>| {
+        for (k, v) in b {
+            a.entry(k).or_insert(v);
+        }
+        a
+    };
+    // parallel over (s0, s1)
+    let firsts: Vec<(&Vec<usize>, &Vec<usize>)> = starts.iter().flat_map(|s0| invs.iter().map(move |s1| (s0, s1))).collect();
+    let found = firsts
+        .par_iter()
+        .fold(BTreeMap::new, |mut local, (s0, s1)| {
+            let mut ops: Vec<&Vec<usize>> = vec![*s0, *s1];
+            rec(dim, n, &invs, &mut ops, &mut local);
+            local
+        })
+        .reduce(BTreeMap::new, merge);
     found.into_values().map(|ds| crate::oracle::iso::canonical_ds(&ds)).collect()
 }
 
@@ -209,7 +262,50 @@ fn random_centralizer_involution(n: usize, s: &[usize], ent: &mut Entropy) -> Ve
     t
 }
 
-/// a complete D-set of the given dimension (1..=3) and size whose non-adjacent operations commute
+/// random involution commuting with every involution in `gens`: orbit-wise equivariant extension of a
+/// choice c(a) = b (b = a, the identity on the orbit of a, always extends)
+fn random_centralizer_involution_multi(n: usize, gens: &[&Vec<usize>], ent: &mut Entropy) -> Vec<usize> {
+    fn try_extend(t: &mut [usize], a: usize, b: usize, gens: &[&Vec<usize>]) -> bool {
+        let mut stack = vec![(a, b)];
+        while let Some((x, y)) = stack.pop() {
+            if t[x] != 0 {
+                if t[x] != y {
+                    return false;
+                }
+                continue;
+            }
+            if t[y] != 0 && t[y] != x {
+                return false;
+            }
+            t[x] = y;
+            t[y] = x;
+            for g in gens {
+                stack.push((g[x], g[y]));
+            }
+        }
+        true
+    }
+    let mut t = vec![0usize; n + 1];
+    for a in 1..=n {
+        if t[a] != 0 {
+            continue;
+        }
+        let cands: Vec<usize> = (a..=n).filter(|&b| t[b] == 0).collect();
+        let start = ent.next(cands.len());
+        for off in 0..cands.len() {
+            let b = cands[(start + off) % cands.len()];
+            let mut trial = t.clone();
+            if try_extend(&mut trial, a, b, gens) {
+                t = trial;
+                break;
+            }
+        }
+        assert!(t[a] != 0, "the identity on an orbit always extends");
+    }
+    t
+}
+
+/// a complete D-set of the given dimension and size whose non-adjacent operations commute
 /// (not necessarily connected)
 pub fn random_commuting_dset(dim: usize, n: usize, entropy: &[u32]) -> DS {
     let mut ent = Entropy { data: entropy, pos: 0 };
@@ -217,6 +313,31 @@ pub fn random_commuting_dset(dim: usize, n: usize, entropy: &[u32]) -> DS {
     let mut ds = DS::new(dim, n);
     let mut s0 = vec![0usize; n + 1];
     random_involution_on(&all, &mut s0, &mut ent);
+    if dim >= 4 {
+        // two "free" neighbours s_a, s_{a+1} somewhere in the chain, everything else by centralisers:
+        // first the operations below a (descending), then those above a + 1 (ascending)
+        let a = ent.next(dim);
+        let mut s1 = vec![0usize; n + 1];
+        random_involution_on(&all, &mut s1, &mut ent);
+        let mut ops: Vec<Option<Vec<usize>>> = vec![None; dim + 1];
+        ops[a] = Some(s0);
+        ops[a + 1] = Some(s1);
+        let mut order: Vec<usize> = (0..a).rev().collect();
+        order.extend(a + 2..=dim);
+        for i in order {
+            let far: Vec<&Vec<usize>> = (0..=dim).filter(|&j| (j as isize - i as isize).abs() > 1).filter_map(|j| ops[j].as_ref()).collect();
+            let s = if far.is_empty() { let mut s = vec![0usize; n + 1]; random_involution_on(&all, &mut s, &mut ent); s } else { random_centralizer_involution_multi(n, &far, &mut ent) };
+            ops[i] = Some(s);
+        }
+        ds.op = ops.into_iter().map(|o| o.unwrap()).collect();
+        for i in 0..dim {
+            for d in 1..=n {
+                ds.v[i][d] = 1;
+            }
+        }
+        debug_assert!(ds.commutes());
+        return ds;
+    }
     match dim {
         1 => {
             let mut s1 = vec![0usize; n + 1];
